@@ -309,10 +309,10 @@ Section DropMany.
 Variable ph : Z.
 Variables seps sepsb : list (kind * str).
 
-Theorem drop_many_layout : forall pre pht cs post idxs,
+Theorem drop_many_core_layout : forall pre pht cs post idxs,
   WF ph pre pht cs post -> NoDup idxs -> (forall y, In y idxs -> 0 <= y < zlen cs) ->
   exists cs' M,
-    drop_many ph (mkst (lay pre pht cs post) (map item_of cs)) idxs
+    drop_many_core ph (mkst (lay pre pht cs post) (map item_of cs)) idxs
       = (mkst (lay pre pht cs' post) (map item_of cs'), [], Ok tt) /\
     WF ph pre pht cs' post /\ Edits cs cs' M [] /\ (Sep seps sepsb cs -> Sep seps sepsb cs') /\
     map item_of cs' = remove_positions (sort_desc idxs) (map item_of cs).
@@ -326,7 +326,38 @@ Proof.
   assert (Hit : map item_of (drop_spec cs (runs_desc (sort_desc idxs) None)) = remove_positions (sort_desc idxs) (map item_of cs)).
   { rewrite Hi. symmetry. apply drop_items_remove; [exact Hn|]. intros y Hy. rewrite zlen_map. now apply Hb. }
   split; [|split; [exact Hw|split; [exact He|split; [exact Hs|exact Hit]]]].
-  unfold drop_many. cbn [s_doc s_items]. rewrite E, Hit. reflexivity.
+  unfold drop_many_core. cbn [s_doc s_items]. rewrite E, Hit. reflexivity.
+Qed.
+
+Lemma norm_all_ok : forall n idxs acc ns, norm_all n idxs acc = Ok ns ->
+  NoDup acc -> (forall y, In y acc -> 0 <= y < n) -> NoDup ns /\ (forall y, In y ns -> 0 <= y < n).
+Proof.
+  induction idxs as [|i r IH]; intros acc ns H Hn Hb; cbn in H.
+  - inversion H; subst. now split.
+  - destruct (norm_index n i) as [j|e] eqn:E; [|discriminate].
+    destruct (norm_index_ok _ _ _ E) as [Hj _].
+    destruct (zmem j acc) eqn:Em; [now apply (IH acc ns H)|].
+    apply (IH (j :: acc) ns H).
+    + constructor; [now apply zmem_false|exact Hn].
+    + intros y [<-|Hy]; [exact Hj|now apply Hb].
+Qed.
+
+(* drop_many(indexes) for ANY index list: either an index is out of range and nothing at all happens
+   (IndexError), or the normalised distinct positions are dropped *)
+Theorem drop_many_layout : forall pre pht cs post idxs,
+  WF ph pre pht cs post ->
+  (exists e, drop_many ph (mkst (lay pre pht cs post) (map item_of cs)) idxs
+             = (mkst (lay pre pht cs post) (map item_of cs), [], Err e)) \/
+  (exists cs' M,
+    drop_many ph (mkst (lay pre pht cs post) (map item_of cs)) idxs
+      = (mkst (lay pre pht cs' post) (map item_of cs'), [], Ok tt) /\
+    WF ph pre pht cs' post /\ Edits cs cs' M [] /\ (Sep seps sepsb cs -> Sep seps sepsb cs')).
+Proof.
+  intros pre pht cs post idxs Hwf. unfold drop_many. cbn [s_items]. rewrite zlen_map.
+  destruct (norm_all (zlen cs) idxs []) as [ns|e] eqn:E; [right|left; now exists e].
+  destruct (norm_all_ok _ _ _ _ E) as [Hn Hb]; [constructor|intros y []|].
+  destruct (drop_many_core_layout pre pht cs post ns Hwf Hn Hb) as (cs' & M & E1 & Hw & He & Hs & _).
+  exists cs', M. split; [exact E1|]. split; [exact Hw|]. split; [exact He|exact Hs].
 Qed.
 
 (* __delitem__ with an extended slice *)
@@ -343,9 +374,17 @@ Proof.
   pose proof (zlen_nonneg cs) as Hn.
   destruct r as [a b k]. cbn [r_start r_stop r_step] in *.
   destruct (slice_indices_range _ _ _ _ _ Hn Hsl) as (Hk & _).
-  destruct (drop_many_layout pre pht cs post (range_list (mkrng a b k)) Hwf) as (cs' & M & E & Hw & He & HS & _).
-  - apply range_list_nodup. exact Hk.
-  - intros y Hy. pose proof (range_list_bounds _ _ _ _ _ Hn Hsl) as HF. rewrite Forall_forall in HF. now apply HF.
+  destruct (drop_many_layout pre pht cs post (range_list (mkrng a b k)) Hwf) as [(e & E)|(cs' & M & E & Hw & He & HS)].
+  - (* every position of range(n)[slice] is in range: the validation cannot fail *)
+    exfalso. unfold drop_many in E. cbn [s_items] in E. rewrite zlen_map in E.
+    pose proof (range_list_bounds _ _ _ _ _ Hn Hsl) as HF.
+    assert (Hv : forall l acc, Forall (fun p => 0 <= p < zlen cs) l -> exists ns, norm_all (zlen cs) l acc = Ok ns).
+    { induction l as [|p l IH]; intros acc HFl; [now exists acc|]. cbn.
+      pose proof (Forall_inv HFl) as Hp. cbn beta in Hp. unfold norm_index.
+      replace ((0 <=? p) && (p <? zlen cs)) with true by lia. apply IH. exact (Forall_inv_tail HFl). }
+    destruct (Hv _ [] HF) as (ns & Ens). rewrite Ens in E.
+    destruct (norm_all_ok _ _ _ _ Ens) as [Hn2 Hb2]; [constructor|intros y []|].
+    destruct (drop_many_core_layout pre pht cs post ns Hwf Hn2 Hb2) as (cs' & M & E1 & _). rewrite E1 in E. discriminate.
   - exists cs', M. split; [|split; [exact Hw|split; [exact He|exact HS]]].
     unfold delitem. cbn [s_items]. rewrite zlen_map, Hr. cbn [r_step].
     replace (k =? 1) with false by lia. exact E.
